@@ -119,12 +119,23 @@ def judge(rep: Report, traces: list[dict], owners: list[dict]) -> None:
     """code -> spec: TLC validates the traces against Trace_Tty.tla."""
     if not traces:
         return
-    verdicts, st, tr = tlc.validate_traces("Trace_Tty", "Trace_Tty.cfg", traces, batch=max(50, min(400, len(traces) // 8 + 1)),
+    # spread the long traces evenly over the batches
+    order = list(range(len(traces)))
+    random.Random(len(traces)).shuffle(order)
+    traces[:] = [traces[i] for i in order]
+    owners[:] = [owners[i] for i in order]
+    verdicts, st, tr = tlc.validate_traces("Trace_Tty", "Trace_Tty.cfg", traces, batch=max(40, len(traces) // 8 + 1),
                                            parallel=8, workers=2, timeout=840, name="c12")
     rep.states += st
     rep.transitions += tr
     rep.traces_validated += len(traces)
     for v, t, o in zip(verdicts, traces, owners):
+        if o["kind"] == "probe":
+            if v["verdict"] == "ok":
+                raise tlc.MachineryError("Trace_Tty accepted a corrupted trace (a byte read was altered)")
+            rep.extra["corrupted_trace_verdict"] = v["verdict"]
+            rep.traces_validated -= 1
+            continue
         if v["verdict"] == "ok":
             continue
         op = t["op"]["name"]
@@ -296,7 +307,7 @@ def main(rep: Report, replay: dict | None) -> None:
     rep.extra["replayed_behaviours"] = len(scens)
     rep.extra["replay_wall_s"] = round(time.time() - t0, 1)
     # 2. code -> spec (i): syscall traces of those runs (quick: a seeded sample)
-    sample = runs if not quick else rng.sample(runs, min(len(runs), 260))
+    sample = runs if not quick else rng.sample(runs, min(len(runs), 110))
     for scn, run in sample:
         traces.append(K.make_trace("virtual", scn, run, c12=scn["intime"]))
         owners.append({"kind": "vtty", "scn": scn, "origin": "MC_Tty behaviour"})
@@ -312,7 +323,7 @@ def main(rep: Report, replay: dict | None) -> None:
             rep.violation(f"{scn['op']}:c12:blocks-forever", f["hang"], {"kind": "grid", "scn": scn})
             continue
         rep.distinct.add(("grid", scn["op"], json.dumps(scn["term"], sort_keys=True), json.dumps(scn["win"]), scn["swap"]))
-        if i % (40 if quick else 10) == 0:
+        if i % (80 if quick else 10) == 0:
             traces.append(K.make_trace("virtual", scn, run, c12=True))
         else:
             if f["residual"] or f["attr"] != scn["attr0"] or f["status"] != "returned":
@@ -342,16 +353,14 @@ def main(rep: Report, replay: dict | None) -> None:
         session.close()
     rep.extra["pty_runs"] = n_pty
     lap("pty")
-    # 5. the alarm rings: a corrupted copy of a good trace must be rejected
+    # 5. the alarm rings: a corrupted copy of a good trace (one byte read altered) must be rejected
     probe = next((copy.deepcopy(t) for t in traces if t["mode"] == "virtual" and len(t["events"]) > 20), None)
     if probe is None:
         raise tlc.MachineryError("no virtual trace to corrupt")
     j = next(i for i, ev in enumerate(probe["events"]) if ev["call"] == "read" and ev["rdata"])
     probe["events"][j]["rdata"] = [probe["events"][j]["rdata"][0] ^ 1]
-    v, _, _ = tlc.validate_traces("Trace_Tty", "Trace_Tty.cfg", [probe], name="c12probe")
-    if v[0]["verdict"] == "ok":
-        raise tlc.MachineryError("Trace_Tty accepted a corrupted trace (a byte read was altered)")
-    rep.extra["corrupted_trace_verdict"] = v[0]["verdict"]
+    traces.append(probe)
+    owners.append({"kind": "probe", "scn": {}, "origin": "probe"})
     lap("probe")
     judge(rep, traces, owners)
     lap("judge")
